@@ -41,7 +41,7 @@ func printItems(items []*bitem) string {
 	var sb strings.Builder
 	for _, it := range items {
 		switch it.kind {
-		case "text":
+		case "text", "code":
 			sb.WriteString(it.text)
 		case "super":
 			sb.WriteString("{{ block.Super }}")
@@ -61,6 +61,8 @@ func printItems(items []*bitem) string {
 func refRender(chain []*btpl, items []*bitem, supers [][]*bitem, out *strings.Builder) {
 	for _, it := range items {
 		switch it.kind {
+		case "code":
+			// template code that renders nothing in the reference
 		case "text":
 			out.WriteString(it.text)
 		case "super":
@@ -157,6 +159,8 @@ func (g *c10Gen) baseDoc() []*bitem {
 			doc = append(doc, blk)
 		}
 	}
+	// names a child may try to bind outside its blocks: the base sees none of that
+	doc = append(doc, &bitem{kind: "code", text: "{{ tv }}{{ tm() }}{{ ti() }}"})
 	doc = append(doc, &bitem{kind: "text", text: ">"})
 	return doc
 }
@@ -167,7 +171,8 @@ func (g *c10Gen) childDoc(level int) []*bitem {
 	n := 1 + g.rg.intn(4)
 	for i := 0; i < n; i++ {
 		if g.rg.chance(1, 3) {
-			doc = append(doc, &bitem{kind: "text", text: "IGNORED"})
+			doc = append(doc, &bitem{kind: "text", text: g.rg.pick([]string{"IGNORED", "{% set tv = \"CHILD\" %}", "{% macro tm() %}CHILDMACRO{% endmacro %}",
+				"{% import \"lib.tpl\" ti %}", "{{ \"IGNORED\" }}", "{% with tv=1 %}IGNORED{% endwith %}", "{% for q in \"ab\" %}IGNORED{% endfor %}"})})
 		}
 		nn := g.pickName(true) // override, or add a block nobody renders
 		if g.used[nn] {
@@ -204,6 +209,7 @@ func runC10(r *run) {
 				t.collect(t.doc)
 				chain = append(chain, t)
 			}
+			files["lib.tpl"] = "{% macro ti() export %}IMPORTED{% endmacro %}"
 			w := &world{files: []map[string]string{files}}
 			// render every template of the chain, most derived first (rendering a parent must
 			// not be affected by its children having been compiled)
@@ -291,6 +297,31 @@ func execC10Shared(r *run, c caseT) {
 	tpls := make([]*pongo2.Template, len(names))
 	obs := ""
 	var failed string
+	if mode == 1 || mode == 3 {
+		// a first attempt with a broken base fails; it must not leave anything behind in the set
+		baseName := unhx(names[len(names)-1])
+		good := b.loaders[0].files[baseName]
+		for _, broken := range []string{"{% block x %}{% endblock %}{% block x %}{% endblock %}", "{% if %}", ""} {
+			b.loaders[0].mu.Lock()
+			if broken == "" {
+				delete(b.loaders[0].files, baseName)
+			} else {
+				b.loaders[0].files[baseName] = broken
+			}
+			b.loaders[0].mu.Unlock()
+			for _, i := range order {
+				if mode == 1 {
+					_, _ = b.set.FromCache(unhx(names[i]))
+				} else {
+					_, _ = b.set.FromFile(unhx(names[i]))
+				}
+			}
+		}
+		b.loaders[0].mu.Lock()
+		b.loaders[0].files[baseName] = good
+		b.loaders[0].mu.Unlock()
+		b.set.CleanCache()
+	}
 	func() {
 		defer func() {
 			if p := recover(); p != nil {
